@@ -19,7 +19,7 @@ BUDGET = {"quick": dict(examples=500, workers=12, seconds=75), "thorough": dict(
 @st.composite
 def cases(draw, tier):
     big = tier == "thorough"
-    shape = draw(st.sampled_from(["ties", "ties", "any", "n100"]))
+    shape = draw(st.sampled_from(["ties", "ties", "ties", "any", "any", "n100", "n100", "many"]))
     k, alpha = draw(gen.alphabets())
     if shape == "ties":
         # equal lengths: substitutions only + duplicates under different names
@@ -38,6 +38,8 @@ def cases(draw, tier):
                 seqs.append(s or anc)
             else:
                 seqs.append("".join(rnd.choice(alpha) if rnd.random() < 0.2 else c for c in anc))
+    elif shape == "many":
+        seqs = gen.expand_random(draw(st.integers(0, 2 ** 32 - 1)), alpha, draw(st.sampled_from([511, 512, 513, 1024, 1025])), 2, draw(st.integers(2, 6)))
     elif shape == "any":
         seqs = draw(gen.seqsets(kind=k, max_n=50, max_len=250))["seqs"]
     else:
